@@ -37,8 +37,8 @@ func runC01(c *Ctx) {
 // ackExceptions: the frozen table of deliberate tolerances on acknowledgement
 // paths (each confirmed by reading the code).
 var ackExceptions = []EFException{
-	{Fn: "(*ls.DB).Close", Callee: "(*ls.Replica).Stop", Reason: "Stop(hard) only closes the replica's read handle after the final sync; its error cannot affect replicated data"},
-	{Fn: "(*ls.Replica).Start", Callee: "(*ls.Replica).Stop", Reason: "Stop(false) never closes anything and returns nil"},
+	{Fn: "(*ls.DB).Close", Callee: "(*ls.Replica).Stop", DroppedOnly: true, Reason: "Stop(hard) only closes the replica's read handle after the final sync; its error cannot affect replicated data"},
+	{Fn: "(*ls.Replica).Start", Callee: "(*ls.Replica).Stop", DroppedOnly: true, Reason: "Stop(false) never closes anything and returns nil"},
 	{Fn: "*", Callee: "ltx.ParseFilename", Reason: "listings skip names that do not parse as LTX files (C03-R3 checks the skip from the other side)"},
 	{Fn: "(*ls.DB).checkpointIfNeeded", Callee: "(*ls.DB).checkpointWithExecutor", Tolerate: []string{"ls.isSQLiteBusyError"}, Reason: "a PASSIVE checkpoint that finds the database busy is skipped; the WAL copy it belongs to already completed"},
 	{Fn: "(*ls.DB).ensureWALExists", Callee: "os.Stat", Reason: "a failed stat falls through to creating the WAL by bumping the sequence row (whose error is returned)"},
